@@ -46,7 +46,8 @@ def _cfg(shape, sim=False, depth=160, maxdup=4, invs=None):
              "  AtomicGossip = %s" % ("TRUE" if shape.get("ag") else "FALSE"),
              "  AtomicExec = %s" % ("TRUE" if shape.get("ae") else "FALSE"),
              "  MaxDrop = %d" % shape.get("drop", 0),
-             "  DropKinds = {%s}" % ", ".join('"%s"' % k for k in shape.get("cover", ("D", "R", "J")))]
+             "  DropKinds = {%s}" % ", ".join('"%s"' % k for k in shape.get("cover", ("D", "R", "J"))),
+             "  Offline = %s" % _set(shape.get("offline", []))]
     if sim:
         lines += ["  Depth = %d" % depth, "  MaxDup = %d" % maxdup,
                   "  ShiftRanks = %s" % ("TRUE" if shape.get("shift") else "FALSE")]
@@ -66,6 +67,11 @@ REMOVE = dict(name="remove", n=4, epoch=2, remain=[1, 2, 3], leave=[4], leader=1
 SWAP = dict(name="swap", n=4, epoch=2, join=[4], remain=[1, 2], leave=[3], leader=1, thr=2, prevThr=2)
 FIRST5 = dict(name="first5", n=5, epoch=1, join=[1, 2, 3, 4, 5], leader=3, thr=3)
 ADD5 = dict(name="add5", n=5, epoch=2, join=[5], remain=[1, 2, 3, 4], leader=4, thr=4, prevThr=3)
+# one member is replaced in ONE proposal (a leaver and a joiner together): remainers run reshareDKGConfig,
+# the joiner initialDKGConfig; variant: the leaver is switched off
+SWAP5 = dict(name="swap5", n=5, epoch=2, join=[5], remain=[1, 2, 3], leave=[4], leader=1, thr=3, prevThr=3)
+SWAP5OFF = dict(name="swap5off", n=5, epoch=2, join=[5], remain=[1, 2, 3], leave=[4], leader=2, thr=3, prevThr=3,
+                offline=[4], ag=True)
 LATE3 = dict(name="late3", n=3, epoch=1, join=[1, 2, 3], leader=1, thr=2, late=[3])
 # one bundle lost on one directed link (only the echo can heal it); the joiner's key sorts before
 # some member, so that indices in the old and the new group differ
@@ -90,6 +96,8 @@ def _exhaustive_jobs(quick):
         ("reshare3", _with(RESHARE3, **one), None, True),
         ("late3", _with(LATE3, ag=True, tmax=TMIN + 1), None, True),
         ("remove", _with(REMOVE, ag=True, **one), None, True),
+        ("swapoff", _with(SWAP, name="swapoff", offline=[3], ae=True, **one), None, True),
+        ("swap5exec", _with(SWAP5, ag=True, **one), None, True),
         # one lost direct bundle on any link: the echo heals it, same outcome
         ("reshare3drop", _with(RESHARE3, ag=True, drop=1, **one), None, True),
         # every key order x every listing order, completion anywhere in the window
@@ -197,6 +205,7 @@ def _script(name, cls, shape, rank, ops):
             "join": lists["join"], "remain": lists["remain"], "leave": lists["leave"],
             "leader": shape["leader"], "thr": shape["thr"], "prevThr": shape.get("prevThr", 0),
             "rank": [[i + 1, r] for i, r in enumerate(rank)], "late": shape.get("late", []),
+            "offline": shape.get("offline", []),
             "period": 2, "policy": "script", "steps": steps}
 
 
@@ -290,10 +299,11 @@ def run(ctx, monitors):
     if q:
         shapes = [(FIRST3, 2, 170), (RESHARE3, 2, 200), (ADD, 1, 260), (REMOVE, 1, 220), (LATE3, 1, 170),
                   (_with(RESHARE3, name="reshare3atomic", ag=True, ae=True), 2, 40),
-                  (ADDDROP, 12, 150), (LATE4DROP, 2, 170)]
+                  (ADDDROP, 12, 150), (LATE4DROP, 2, 170), (SWAP5, 1, 330), (SWAP5OFF, 1, 220)]
     else:
         shapes = [(FIRST3, 8, 170), (FIRST4, 6, 300), (FIRST5, 3, 460), (RESHARE3, 8, 200), (RESHARE4, 4, 330), (ADD, 6, 260),
-                  (ADD5, 2, 480), (REMOVE, 4, 220), (SWAP, 4, 220), (LATE3, 4, 170), (LATE4, 3, 300),
+                  (ADD5, 2, 480), (REMOVE, 4, 220), (SWAP, 4, 220), (SWAP5, 4, 330), (SWAP5OFF, 3, 220),
+                  (_with(SWAP, name="swapoff", offline=[3]), 3, 220), (LATE3, 4, 170), (LATE4, 3, 300),
                   (_with(RESHARE3, name="reshare3atomic", ag=True, ae=True), 8, 40),
                   (_with(ADD, name="addatomic", ag=True, ae=True), 6, 40),
                   (_with(ADDDROP, simnum=800), 21, 150), (_with(LATE4DROP, simnum=500), 6, 170),
